@@ -153,6 +153,52 @@ Proof.
   - intros h s Hh Hs. apply dedup_covers. apply in_flat_map. now exists h.
 Qed.
 
+(* ---------------------------------------------------------------- corollaries: request shape, containment *)
+(* the answer depends only on the SET of requested handles: order and repetition in the request are invisible *)
+Lemma get_md_state_handle_set flag m hs1 hs2 : hs1 <> [] -> hs2 <> [] ->
+  (forall h, In h hs1 -> In h hs2) ->
+  forall s, In s (get_md_state flag m hs1) -> exists y, In y (get_md_state flag m hs2) /\ qs_eqb y s = true.
+Proof.
+  intros N1 N2 Hsub s Hs.
+  destruct (get_md_state_exact flag m hs1 N1) as (_ & Hsound & _).
+  destruct (get_md_state_exact flag m hs2 N2) as (_ & _ & Hcompl).
+  destruct (Hsound s Hs) as (h & Hh & Hr). exact (Hcompl h s (Hsub h Hh) Hr).
+Qed.
+
+Lemma get_context_states_handle_set m hs1 hs2 : hs1 <> [] -> hs2 <> [] ->
+  (forall h, In h hs1 -> In h hs2) ->
+  forall s, In s (get_context_states m hs1) -> exists y, In y (get_context_states m hs2) /\ qs_eqb y s = true.
+Proof.
+  intros N1 N2 Hsub s Hs.
+  destruct (get_context_states_exact m hs1 N1) as (_ & Hsound & _).
+  destruct (get_context_states_exact m hs2 N2) as (_ & _ & Hcompl).
+  destruct (Hsound s Hs) as (h & Hh & Hr). exact (Hcompl h s (Hsub h Hh) Hr).
+Qed.
+
+(* whatever is asked, nothing is returned that the MDIB does not hold; with the flag off GetMdState never
+   returns a context state, and GetContextStates never returns anything but context states of the MDIB *)
+Lemma get_md_state_contained flag m handles s :
+  In s (get_md_state flag m handles) ->
+  In s (qm_states m) \/ (flag = true /\ In s (qm_cstates m)).
+Proof.
+  destruct handles as [|h0 hs] eqn:E.
+  - rewrite get_md_state_all. intros Hi. apply in_app_or in Hi as [Hi|Hi]; [now left|].
+    destruct flag; [right; now split | contradiction].
+  - rewrite <- E. assert (N : handles <> []) by (rewrite E; discriminate).
+    intros Hi. destruct (get_md_state_exact flag m handles N) as (_ & Hsound & _).
+    destruct (Hsound s Hi) as (h & _ & Hr). apply resolve_state_sound in Hr. tauto.
+Qed.
+
+Lemma get_context_states_contained m handles s :
+  In s (get_context_states m handles) -> In s (qm_cstates m).
+Proof.
+  destruct handles as [|h0 hs] eqn:E.
+  - cbn [get_context_states]. tauto.
+  - rewrite <- E. assert (N : handles <> []) by (rewrite E; discriminate).
+    intros Hi. destruct (get_context_states_exact m handles N) as (_ & Hsound & _).
+    destruct (Hsound s Hi) as (h & _ & Hr). apply resolve_ctx_sound in Hr. tauto.
+Qed.
+
 (* ---------------------------------------------------------------- localized texts *)
 Lemma insert_by_in {A} (key : A -> Z) x l y : In y (insert_by key x l) <-> y = x \/ In y l.
 Proof.
